@@ -7,9 +7,14 @@ import (
 	"fmt"
 	"github.com/ipfs/go-cid"
 	carv2 "github.com/ipld/go-car/v2"
+	"math/rand"
 	"os"
 	"path/filepath"
+	"runtime"
 	"strings"
+	"sync"
+	"sync/atomic"
+	"time"
 
 	"github.com/ipld/go-car/v2/storage"
 	"github.com/ipld/go-car/v2/storage/deferred"
@@ -27,6 +32,7 @@ type c20Desc struct {
 	Depth  int      `json:"depth,omitempty"`
 	Seed   int64    `json:"seed,omitempty"`
 	Random int      `json:"random,omitempty"`
+	Conc   int      `json:"conc,omitempty"` // > 0: this many scenarios of overlapping Puts
 }
 
 // countingStream records every write reaching the stream.
@@ -51,7 +57,7 @@ func (c *countingStream) Write(p []byte) (int, error) {
 	return c.buf.Write(p)
 }
 
-var c20Ops = []string{"OnPutOnce", "OnPutAlways", "Has:k1", "Has:k2", "Put:k1", "Put:k2", "Put:id", "Close"}
+var c20Ops = []string{"OnPutOnce", "OnPutAlways", "OnPutNest", "Has:k1", "Has:k2", "Put:k1", "Put:k2", "Put:id", "Close"}
 
 func c20Cfg(target string) lab.Cfg {
 	switch target {
@@ -63,6 +69,9 @@ func c20Cfg(target string) lab.Cfg {
 		return lab.Cfg{DataPad: 5, IndexPad: 3, Sorted: true, StoreID: true}
 	case "stream", "stream-failing":
 		return lab.Cfg{V1: true}
+	case "stream-v2-refused":
+		// a plain stream asked for a CARv2: the direct writer refuses (not seekable), and so must every Put
+		return lab.Cfg{}
 	case "stream-opts":
 		return lab.Cfg{V1: true, AllowDup: true, StoreID: true, WholeCID: true}
 	case "stream-writerat-default":
@@ -109,8 +118,9 @@ func c20RunHistory(t *mon.T, target string, hist []string, dir string) {
 		preexisting = true
 	}
 	stream := &countingStream{quota: -1}
-	failing := target == "stream-failing"
-	if failing {
+	refused := target == "stream-v2-refused"
+	failing := target == "stream-failing" || refused
+	if target == "stream-failing" {
 		// the stream breaks after the header (59 bytes) / after the first section / inside the header
 		stream.quota = []int{70, 110, 20, 59}[len(hist)%4]
 	}
@@ -127,9 +137,15 @@ func c20RunHistory(t *mon.T, target string, hist []string, dir string) {
 	} else if target == "stream-writerat-default" {
 		wat = iofault.New(nil)
 		w = deferred.NewDeferredCarWriterForStream(wat, roots) // no option at all
+	} else if refused {
+		w = deferred.NewDeferredCarWriterForStream(stream, roots, append(cfg.Opts(), carv2.WriteAsCarV1(false))...)
 	} else if isStream {
 		dopts.V1 = false
-		w = deferred.NewDeferredCarWriterForStream(stream, roots, dopts.Opts()...)
+		// the caller's option slice has spare capacity and is used for a second writer as well (a
+		// constructor must not write into the slice it was handed)
+		shared := append(make([]carv2.Option, 0, 16), dopts.Opts()...)
+		w = deferred.NewDeferredCarWriterForStream(stream, roots, shared...)
+		_ = deferred.NewDeferredCarWriterForStream(&bytes.Buffer{}, roots, shared...)
 	} else {
 		if target == "path-v2-first-header-fails" {
 			// the first write of the CARv1 header fails (3 bytes get through), every later write works:
@@ -138,7 +154,9 @@ func c20RunHistory(t *mon.T, target string, hist []string, dir string) {
 			tp.SetFaults([]iofault.Fault{{At: 0, Keep: 3}})
 			defer iofault.UntapPath(path)
 		}
-		w = deferred.NewDeferredCarWriterForPath(path, roots, cfg.Opts()...)
+		shared := append(make([]carv2.Option, 0, 16), cfg.Opts()...)
+		w = deferred.NewDeferredCarWriterForPath(path, roots, shared...)
+		_ = deferred.NewDeferredCarWriterForPath(path+".other", roots, shared...)
 	}
 	pathFailed := false
 	// the direct writer with the same roots/options, fed the same puts
@@ -169,6 +187,8 @@ func c20RunHistory(t *mon.T, target string, hist []string, dir string) {
 	}
 	var cbs []cb
 	var log, wantLog []string
+	optional := map[int]bool{} // indexes into wantLog of entries that may be absent
+	var nested []cb            // callbacks registered from inside a callback during the current Put
 	nextID := 0
 	started, closed := false, false
 	m := &lab.Model{Cfg: cfg}
@@ -181,6 +201,20 @@ func c20RunHistory(t *mon.T, target string, hist []string, dir string) {
 			once := op == "OnPutOnce"
 			cbs = append(cbs, cb{id, once})
 			w.OnPut(func(n int) { log = append(log, fmt.Sprintf("cb%d(%d)", id, n)) }, once)
+		case op == "OnPutNest":
+			// a once-only callback that, when it fires, registers a persistent callback (OnPut takes no
+			// lock, so this is legal): the new one fires on every LATER Put; whether it also fires on the
+			// Put during which it was registered is not fixed
+			id := nextID
+			inner := nextID + 1
+			nextID += 2
+			cbs = append(cbs, cb{id, true})
+			w.OnPut(func(n int) {
+				log = append(log, fmt.Sprintf("cb%d(%d)", id, n))
+				w.OnPut(func(n int) { log = append(log, fmt.Sprintf("cb%d(%d)", inner, n)) }, false)
+				nested = append(nested, cb{inner, false})
+			}, true)
+			t.Cover("callback-registered-from-inside-a-callback")
 		case strings.HasPrefix(op, "Has:"):
 			b := blk[op[4:]]
 			has, err := w.Has(bg, string(b.Cid))
@@ -219,10 +253,21 @@ func c20RunHistory(t *mon.T, target string, hist []string, dir string) {
 				}
 			}
 			cbs = keep
+			// callbacks registered during this Put: registered from now on, optional for this Put
+			for _, c := range nested {
+				optional[len(wantLog)] = true
+				wantLog = append(wantLog, fmt.Sprintf("cb%d(%d)", c.id, len(b.Data)))
+				cbs = append(cbs, c)
+			}
+			nested = nil
 			if err != nil && target == "path-v2-first-header-fails" && !pathFailed {
 				pathFailed = true // the injected fault: this Put is not acknowledged, the next one starts over
 				t.Cover("failing-path:first-put-failed")
 				break
+			}
+			if refused && err == nil && !streamFailed {
+				viol("Put/acknowledged-on-refused-target", "step %d: Put succeeded on a plain stream asked for a CARv2; a direct writer refuses that target", i)
+				return
 			}
 			if err != nil && failing {
 				streamFailed = true
@@ -291,6 +336,10 @@ func c20RunHistory(t *mon.T, target string, hist []string, dir string) {
 			t.Cover("lazy-steps-observed")
 		} else if streamFailed {
 			// bytes after a failed write are C16's business; here only "closed means closed" and the callbacks
+			if refused && stream.writes > 0 {
+				viol("output/bytes-on-refused-target", "step %d (%s): %d write(s) reached a stream on which no CARv2 can be written", i, op, stream.writes)
+				return
+			}
 		} else {
 			want := direct.Bytes()
 			if !exists || !bytes.Equal(out, want) {
@@ -299,7 +348,7 @@ func c20RunHistory(t *mon.T, target string, hist []string, dir string) {
 			}
 			t.Cover("byte-comparisons")
 		}
-		if strings.Join(log, " ") != strings.Join(wantLog, " ") {
+		if !c20LogMatches(log, wantLog, optional) {
 			viol("callbacks/log-differs", "step %d (%s): callback log [%s], want [%s]", i, op, strings.Join(log, " "), strings.Join(wantLog, " "))
 			return
 		}
@@ -312,6 +361,201 @@ func c20RunHistory(t *mon.T, target string, hist []string, dir string) {
 	}
 }
 
+// c20RunConcurrent: several goroutines put at the same time while once-only callbacks are registered.
+// The writer serialises Puts itself (its mutex), so "once per Put, once-only callbacks exactly once,
+// registration order" is as decidable as in a sequential history; the output must equal a direct
+// writer fed the same puts in SOME order. The first callback entered lingers a moment so that
+// another Put arrives while a Put is in progress (widening, not a verdict).
+func c20RunConcurrent(t *mon.T, target string, r *rand.Rand, dir string) {
+	cfg := c20Cfg(target)
+	isStream := strings.HasPrefix(target, "stream")
+	sha := func(d []byte) []byte { h, _ := refcar.Hash(0x12, d); return h }
+	var blks []refcar.Block
+	nput := 2 + r.Intn(3)
+	for i := 0; i < nput; i++ {
+		data := bytes.Repeat([]byte{byte('a' + i)}, 3+i) // distinct lengths identify the Put in the callback log
+		blks = append(blks, refcar.Block{Cid: refcar.MakeCidV1(0x55, 0x12, sha(data)), Data: data})
+	}
+	roots := lab.ToCids([][]byte{blks[0].Cid}, false)
+	path := filepath.Join(dir, "conc.car")
+	os.Remove(path)
+	stream := &countingStream{quota: -1}
+	var w *deferred.DeferredCarWriter
+	opts := cfg.Opts()
+	if isStream {
+		dopts := cfg
+		dopts.V1 = false
+		w = deferred.NewDeferredCarWriterForStream(stream, roots, dopts.Opts()...)
+	} else {
+		w = deferred.NewDeferredCarWriterForPath(path, roots, opts...)
+	}
+	type reg struct{ once bool }
+	ncb := 2 + r.Intn(3)
+	regs := make([]reg, ncb)
+	var mu sync.Mutex
+	var log []string // "cb<id>(<n>)"
+	entered := make(chan struct{}, 64)
+	var lingered atomic.Bool
+	desc := ""
+	for i := range regs {
+		regs[i].once = r.Intn(2) == 0
+		if i == ncb-1 && !regs[0].once && !regs[ncb-1].once {
+			regs[i].once = true // at least one once-only callback
+		}
+		id := i
+		if regs[i].once {
+			desc += "o"
+		} else {
+			desc += "a"
+		}
+		w.OnPut(func(n int) {
+			mu.Lock()
+			log = append(log, fmt.Sprintf("cb%d(%d)", id, n))
+			mu.Unlock()
+			select {
+			case entered <- struct{}{}:
+			default:
+			}
+			if lingered.CompareAndSwap(false, true) {
+				time.Sleep(3 * time.Millisecond)
+			}
+			runtime.Gosched()
+		}, regs[i].once)
+	}
+	viol := func(key, format string, a ...any) {
+		t.ViolateD("deferred("+target+")/concurrent/"+key, map[string]any{"callbacks": desc, "puts": nput}, "[%d overlapping Puts, callbacks %s] "+format, append([]any{nput, desc}, a...)...)
+	}
+	errs := make([]error, nput)
+	var wg sync.WaitGroup
+	for i := 0; i < nput; i++ {
+		wg.Add(1)
+		go func(i int) {
+			defer wg.Done()
+			if i > 0 {
+				<-entered // start while the first Put is inside its callbacks
+			}
+			errs[i] = w.Put(bg, string(blks[i].Cid), blks[i].Data)
+			select {
+			case entered <- struct{}{}:
+			default:
+			}
+		}(i)
+	}
+	wg.Wait()
+	t.Events(nput)
+	for i, err := range errs {
+		if err != nil {
+			viol("Put/error", "Put %d failed: %v", i, err)
+			return
+		}
+	}
+	cerr := w.Close()
+	if cerr != nil {
+		viol("Close/error", "Close failed: %v", cerr)
+		return
+	}
+	// callbacks: per Put (identified by n), the persistent callbacks exactly once each, in registration order;
+	// every once-only callback exactly once over the whole scenario, and within its Put in registration order
+	perPut := map[int][]int{}
+	total := map[int]int{}
+	for _, e := range log {
+		var id, n int
+		fmt.Sscanf(e, "cb%d(%d)", &id, &n)
+		perPut[n] = append(perPut[n], id)
+		total[id]++
+	}
+	for id, rg := range regs {
+		want := nput
+		if rg.once {
+			want = 1
+		}
+		if total[id] != want {
+			kind := "persistent"
+			if rg.once {
+				kind = "once-only"
+			}
+			viol("callbacks/count", "%s callback %d fired %d times, want %d (log %v)", kind, id, total[id], want, log)
+			return
+		}
+	}
+	for n, ids := range perPut {
+		for k := 1; k < len(ids); k++ {
+			if ids[k] <= ids[k-1] {
+				viol("callbacks/order", "within the Put of %d bytes the callbacks ran in the order %v, not in registration order", n, ids)
+				return
+			}
+		}
+	}
+	t.Cover("concurrent:callback-logs-checked")
+	// output: equal to a direct writer fed the puts in the order in which they reached the file
+	var out []byte
+	if isStream {
+		out = stream.buf.Bytes()
+	} else {
+		out, _ = os.ReadFile(path)
+	}
+	okAny := false
+	perm := make([]int, nput)
+	for i := range perm {
+		perm[i] = i
+	}
+	var try func(k int)
+	try = func(k int) {
+		if okAny {
+			return
+		}
+		if k == nput {
+			direct := iofault.New(nil)
+			direct.NoLog = true
+			dw, derr := storage.NewWritable(direct, roots, opts...)
+			if derr != nil {
+				panic(derr)
+			}
+			for _, i := range perm {
+				if derr := dw.Put(bg, string(blks[i].Cid), blks[i].Data); derr != nil {
+					panic(derr)
+				}
+			}
+			if derr := dw.Finalize(); derr != nil {
+				panic(derr)
+			}
+			if bytes.Equal(direct.Bytes(), out) {
+				okAny = true
+			}
+			return
+		}
+		for j := k; j < nput; j++ {
+			perm[k], perm[j] = perm[j], perm[k]
+			try(k + 1)
+			perm[k], perm[j] = perm[j], perm[k]
+		}
+	}
+	try(0)
+	if !okAny {
+		viol("output/differs-from-direct-writer", "the output (%d bytes) equals a direct writer's for no order of the %d puts", len(out), nput)
+		return
+	}
+	t.Cover("concurrent:byte-comparisons")
+	if err := w.Put(bg, string(blks[0].Cid), blks[0].Data); !errors.Is(err, storage.ErrClosed) {
+		viol("Put/after-close", "Put after Close returned %v", err)
+	}
+}
+
+// c20LogMatches: the observed callback log equals the wanted one, entries marked optional may be absent.
+func c20LogMatches(log, want []string, optional map[int]bool) bool {
+	i := 0
+	for j, w := range want {
+		if i < len(log) && log[i] == w {
+			i++
+			continue
+		}
+		if !optional[j] {
+			return false
+		}
+	}
+	return i == len(log)
+}
+
 func runC20(t *mon.T, raw json.RawMessage) {
 	var d c20Desc
 	if err := json.Unmarshal(raw, &d); err != nil {
@@ -322,7 +566,13 @@ func runC20(t *mon.T, raw json.RawMessage) {
 	t.Nontrivial()
 	t.Cover("target:" + d.Target)
 	n := 0
-	if d.Random > 0 {
+	if d.Conc > 0 {
+		r := gen.Rand(d.Seed)
+		for i := 0; i < d.Conc; i++ {
+			c20RunConcurrent(t, d.Target, r, dir)
+			n++
+		}
+	} else if d.Random > 0 {
 		r := gen.Rand(d.Seed)
 		for i := 0; i < d.Random; i++ {
 			h := make([]string, 5+r.Intn(25))
@@ -354,7 +604,7 @@ func runC20(t *mon.T, raw json.RawMessage) {
 }
 
 func genC20(g *mon.G) {
-	targets := []string{"path-v1", "path-v2", "path-v2-opts", "stream", "stream-opts", "stream-writerat-v2", "stream-failing", "stream-writerat-default", "path-v2-first-header-fails"}
+	targets := []string{"path-v1", "path-v2", "path-v2-opts", "stream", "stream-opts", "stream-writerat-v2", "stream-failing", "stream-writerat-default", "path-v2-first-header-fails", "stream-v2-refused"}
 	depth := g.Pick(3, 5) // histories up to length 1+depth
 	for _, tg := range targets {
 		for _, op := range c20Ops {
@@ -365,16 +615,21 @@ func genC20(g *mon.G) {
 	for i := 0; i < g.Pick(20, 400); i++ {
 		g.Emit(c20Desc{Target: targets[i%len(targets)], Seed: r.Int63(), Random: 50})
 	}
+	for i, tg := range []string{"path-v1", "path-v2", "path-v2-opts", "stream", "stream-opts"} {
+		for k := 0; k < g.Pick(2, 20); k++ {
+			g.Emit(c20Desc{Target: tg, Seed: r.Int63() + int64(i), Conc: 25})
+		}
+	}
 }
 
 func init() {
 	Register(&mon.Check{
 		ID:          "C20",
 		Level:       "exploration",
-		Rule:        "EXHAUSTIVE: all op strings of length ≤ 4 (quick) / ≤ 6 (thorough) over {OnPut(once), OnPut(always), Has(k1), Has(k2), Put(k1), Put(k2), Put(identity), Close} x 9 targets (a path whose first header write fails and which is started over by the next Put, a stream that is an io.WriterAt with default options, path CARv1, path CARv2, path CARv2 with paddings/codec/identity options, stream, stream with options, a stream that is an io.WriterAt with WriteAsCarV1(false), a stream that breaks after 20/59/70/110 bytes: callbacks still once per Put, and after the first Close, whatever it returned, every call reports closed), plus random strings of length 5-30; after EVERY step: no write on the stream / no file before the first Put, then output bytes equal to a directly constructed storage.NewWritable fed the same puts, callback log equal to the model's (registration order, once-callbacks exactly once), closed-error after Close. A case = all strings sharing a first op; counters.histories counts individual strings",
+		Rule:        "EXHAUSTIVE: all op strings of length ≤ 4 (quick) / ≤ 6 (thorough) over {OnPut(once), OnPut(always), Has(k1), Has(k2), Put(k1), Put(k2), Put(identity), Close} x 10 targets (a plain stream asked for a CARv2, which a direct writer refuses: every Put fails, nothing reaches the stream, closed means closed; a path whose first header write fails and which is started over by the next Put, a stream that is an io.WriterAt with default options, path CARv1, path CARv2, path CARv2 with paddings/codec/identity options, stream, stream with options, a stream that is an io.WriterAt with WriteAsCarV1(false), a stream that breaks after 20/59/70/110 bytes: callbacks still once per Put, and after the first Close, whatever it returned, every call reports closed), plus random strings of length 5-30, plus scenarios of 2-4 overlapping Puts from separate goroutines with 2-4 callbacks (counts, per-Put order, output equal to a direct writer for some order of the puts); after EVERY step: no write on the stream / no file before the first Put, then output bytes equal to a directly constructed storage.NewWritable fed the same puts, callback log equal to the model's (registration order, once-callbacks exactly once), closed-error after Close. A case = all strings sharing a first op; counters.histories counts individual strings",
 		Assumptions: []string{"the direct writer itself is judged by C01/C05; here only equality with it", "callbacks are registered from the same goroutine (OnPut is registration, not a concurrent operation)"},
 		Gen:         genC20,
 		Run:         runC20,
-		MinCover:    map[string]int{"histories": 10000, "lazy-steps-observed": 1000, "byte-comparisons": 5000, "first-put": 1000, "close-before-put": 100, "close-after-put": 500, "histories-with-callbacks": 1000, "failing-stream:put-failed": 100, "failing-path:first-put-failed": 100, "failing-path:restarted-and-closed": 50, "roots:empty-list": 100, "roots:nil": 100, "failing-stream:close-after-failure": 50},
+		MinCover:    map[string]int{"histories": 10000, "lazy-steps-observed": 1000, "byte-comparisons": 5000, "first-put": 1000, "close-before-put": 100, "close-after-put": 500, "histories-with-callbacks": 1000, "failing-stream:put-failed": 100, "failing-path:first-put-failed": 100, "failing-path:restarted-and-closed": 50, "roots:empty-list": 100, "roots:nil": 100, "failing-stream:close-after-failure": 50, "concurrent:callback-logs-checked": 200, "concurrent:byte-comparisons": 200},
 	})
 }
